@@ -20,10 +20,12 @@ import re
 
 import vcheck as V
 
+CONN_MUTANTS = ["keepenc", "keepboth", "partial"]
 MUTANTS = ["nogroup", "nologterm", "noencterm", "noindex", "nodecadv"]
 PROP_INVS = "Lossless StepFaithful InSync CtxAgree ErrorAfterDamage"
 
-STREAM_KEYS = ["stream_connections", "stream_reconnects", "stream_messages", "stream_heartbeats", "stream_not_written",
+STREAM_KEYS = ["conn_scenarios", "conn_connections_cut", "conn_delivered", "posts", "snapshot_posts",
+               "stream_connections", "stream_reconnects", "stream_messages", "stream_heartbeats", "stream_not_written",
                "stream_connections_not_logged"]
 ACTIONS = ["Encode", "EncodeFull", "EncodeHB", "Decode", "DoTruncate", "DoCorrupt"]
 _re_cov = re.compile(r"^<(\w+) line \d+, col \d+ to line \d+, col \d+ of module \w+>: \d+:(\d+)", re.M)
@@ -57,13 +59,18 @@ def model_runs(ctx, gdot):
         # with -coverage so that no property-relevant action is vacuous
         jobs += [("deep", "MC_ZCodec_deep.cfg", 4, None), ("hist", "MC_ZCodec_hist.cfg", 3, None)]
     jobs += [("mut-" + m, "MC_ZCodec_mut_%s.cfg" % m, 1, None) for m in MUTANTS]
+    if not ctx.quick():
+        # stream level (ZCodecConn): connections cut at any frame, re-attach, global delivery order
+        jobs += [("conn", "MC_ZCodecConn.cfg", 4, None), ("conn-deep", "MC_ZCodecConn_deep.cfg", 4, None)]
+        jobs += [("mut-conn-" + m, "MC_ZCodecConn_mut_%s.cfg" % m, 1, None) for m in CONN_MUTANTS]
 
     def one(j):
         name, cfg, w, extra = j
         cov = name == "hist"
-        r = V.tlc(ctx, "MC_ZCodec", cfg, workers=w, timeout=900, extra=extra, tag="mc-" + name, coverage=cov)
+        mod = "MC_ZCodecConn" if "ZCodecConn" in cfg else "MC_ZCodec"
+        r = V.tlc(ctx, mod, cfg, workers=w, timeout=900, extra=extra, tag="mc-" + name, coverage=cov)
         if r.timed_out or (not r.ok and not r.violated):
-            r = V.tlc(ctx, "MC_ZCodec", cfg, workers=w, timeout=1500, extra=extra, tag="mc-" + name, coverage=cov)
+            r = V.tlc(ctx, mod, cfg, workers=w, timeout=1500, extra=extra, tag="mc-" + name, coverage=cov)
         return name, cfg, r
     return V.parallel(one, jobs, n=len(jobs))
 
@@ -152,7 +159,9 @@ def run(ctx):
                 ("msg", ["-msg", "50", "-len", "20", "-seed", str(seed * 10 + 3)]),
                 ("explore-a", ["-explore", "9", "-seed", str(seed * 10 + 4)]),
                 ("explore-b", ["-explore", "9", "-seed", str(seed * 10 + 5)]),
-                ("stream", ["-stream", "60", "-seed", str(seed * 10 + 6)])]
+                ("stream", ["-stream", "60", "-seed", str(seed * 10 + 6)]),
+                ("conn", ["-conn", "80", "-seed", str(seed * 10 + 7)]),
+                ("post", ["-post", "50", "-seed", str(seed * 10 + 8)])]
         walk_args = ["-dot", gdot, "-limit", "18000", "-seed", str(seed)]
     else:
         plan = [("random-%d" % i, ["-random", "250", "-len", "40", "-big", "0.12", "-seed", str(seed * 100 + i)]) for i in range(4)]
@@ -160,6 +169,8 @@ def run(ctx):
         plan += [("explore-%d" % i, ["-explore", "24", "-seed", str(seed * 100 + 20 + i)]) for i in range(4)]
         plan += [("explore-full-%d" % i, ["-explore", "8", "-full", "-payload", "-seed", str(seed * 100 + 30 + i)]) for i in range(2)]
         plan += [("stream-%d" % i, ["-stream", "300", "-seed", str(seed * 100 + 40 + i)]) for i in range(2)]
+        plan += [("conn-%d" % i, ["-conn", "300", "-seed", str(seed * 100 + 50 + i)]) for i in range(2)]
+        plan += [("post", ["-post", "200", "-snap", "4", "-seed", str(seed * 100 + 60)])]
         walk_args = ["-dot", gdot, "-seed", str(seed)]
 
     from concurrent.futures import ThreadPoolExecutor
@@ -319,6 +330,16 @@ def run(ctx):
                  "TLC (ZCodecTrace OnTrunc/OnCorrupt) evaluates each: exactly the whole frames before the "
                  "damage, then an error"),
         stream_stage=dict(stream_stats,
+                          conn_rule="conn_*: a real streamWriter AND a real streamReader (its dials answered by the "
+                                    "harness with the bytes of one connection each, cut at a seeded offset, often inside "
+                                    "a frame); per connection ZCodecTrace applies Truncate at the cut and requires exactly "
+                                    "the whole frames before it to reach raft.Process, then the end; the global order of "
+                                    "Process calls (`deliver`) must be an order-preserving duplicate-free subsequence of "
+                                    "what was written.  posts: messages of all types through a real pipeline "
+                                    "(MustMarshal + HTTP POST) to the real pipelineHandler, one self-contained frame per "
+                                    "POST, plus bodies cut at seeded offsets handed to the handler (nothing may reach "
+                                    "raft); snapshot_posts (thorough): createSnapBody to the real snapshotHandler with a "
+                                    "recording ISnapSaver, body CRC compared, cut bodies",
                           rule="a real streamWriter (startStreamWriter) gets outgoing connections attached while it "
                                "replicates (msgappv2 in continuation mode; generic stream likewise); every connection "
                                "is one trace segment: the frames written to it, then what a fresh real decoder reads "
